@@ -195,6 +195,7 @@ def execute(ctx):
 
     def complete(kind, mid, addr, result, payload):
         dbg.append('%.4f notify %s mem %d addr %d %s' % (sim.now, kind, mid, addr, result))
+        ctx.obs('notify', kind, mid, addr, result)
         lst = outstanding[kind].get(mid, [])
         for r in lst:
             if r.addr == addr and not r.done:
